@@ -112,26 +112,29 @@ pub open spec fn m_visit(ss: Seq<LuaScope>, i: int, p: int, entry: bool) -> Seq<
 
 // ---- visitors: the state machine a `FnMut(ScopeOrDeclId) -> bool` is ------------------------------------------------------------------
 pub trait DeclVisitor: Sized {
+    /// abstract state of the visitor (its captured variables)
+    type S;
     /// what the visitor needs to run (e.g. hash-map key model); kept by every step
     spec fn inv(self) -> bool;
-    /// the visitor's state after it was called with x
-    spec fn step(self, x: ScopeOrDeclId) -> Self;
+    spec fn state(self) -> Self::S;
+    /// the state after the visitor was called with x
+    spec fn step(s: Self::S, x: ScopeOrDeclId) -> Self::S;
     /// the value it returns on x (true = stop the traversal)
-    spec fn stops(self, x: ScopeOrDeclId) -> bool;
+    spec fn stops(s: Self::S, x: ScopeOrDeclId) -> bool;
     fn visit(&mut self, x: ScopeOrDeclId) -> (r: bool)
         requires old(self).inv(),
-        ensures final(self).inv(), *final(self) == old(self).step(x), r == old(self).stops(x);
+        ensures final(self).inv(), final(self).state() == Self::step(old(self).state(), x), r == Self::stops(old(self).state(), x);
 }
 /// feed the sequence to the visitor until it says stop: (final state, stopped)
-pub open spec fn run<F: DeclVisitor>(v: F, s: Seq<ScopeOrDeclId>) -> (F, bool)
+pub open spec fn run<F: DeclVisitor>(v: F::S, s: Seq<ScopeOrDeclId>) -> (F::S, bool)
     decreases s.len()
 {
     if s.len() == 0 { (v, false) }
-    else if v.stops(s[0]) { (v.step(s[0]), true) }
-    else { run(v.step(s[0]), s.drop_first()) }
+    else if F::stops(v, s[0]) { (F::step(v, s[0]), true) }
+    else { run::<F>(F::step(v, s[0]), s.drop_first()) }
 }
-pub proof fn lemma_run_concat<F: DeclVisitor>(v: F, a: Seq<ScopeOrDeclId>, b: Seq<ScopeOrDeclId>)
-    ensures run(v, a + b) == (if run(v, a).1 { run(v, a) } else { run(run(v, a).0, b) })
+pub proof fn lemma_run_concat<F: DeclVisitor>(v: F::S, a: Seq<ScopeOrDeclId>, b: Seq<ScopeOrDeclId>)
+    ensures run::<F>(v, a + b) == (if run::<F>(v, a).1 { run::<F>(v, a) } else { run::<F>(run::<F>(v, a).0, b) })
     decreases a.len()
 {
     if a.len() == 0 {
@@ -139,16 +142,224 @@ pub proof fn lemma_run_concat<F: DeclVisitor>(v: F, a: Seq<ScopeOrDeclId>, b: Se
     } else {
         assert((a + b)[0] == a[0]);
         assert((a + b).drop_first() =~= a.drop_first() + b);
-        if !v.stops(a[0]) { lemma_run_concat(v.step(a[0]), a.drop_first(), b); }
+        if !F::stops(v, a[0]) { lemma_run_concat::<F>(F::step(v, a[0]), a.drop_first(), b); }
     }
 }
-pub proof fn lemma_run_one<F: DeclVisitor>(v: F, x: ScopeOrDeclId)
-    ensures run(v, seq![x]) == (v.step(x), v.stops(x))
+pub proof fn lemma_run_one<F: DeclVisitor>(v: F::S, x: ScopeOrDeclId)
+    ensures run::<F>(v, seq![x]) == (F::step(v, x), F::stops(v, x))
 {
     let s = seq![x];
     assert(s[0] == x);
-    if !v.stops(x) { assert(s.drop_first().len() == 0); assert(run(v.step(x), s.drop_first()) == (v.step(x), false)); }
+    if !F::stops(v, x) { assert(s.drop_first().len() == 0); assert(run::<F>(F::step(v, x), s.drop_first()) == (F::step(v, x), false)); }
 }
-pub proof fn lemma_run_empty<F: DeclVisitor>(v: F)
-    ensures run(v, Seq::<ScopeOrDeclId>::empty()) == (v, false)
+pub proof fn lemma_run_empty<F: DeclVisitor>(v: F::S)
+    ensures run::<F>(v, Seq::<ScopeOrDeclId>::empty()) == (v, false)
 {}
+
+pub proof fn lemma_child_step<F: DeclVisitor>(v: F::S, ks: Seq<ScopeOrDeclId>, k: int)
+    requires 0 <= k < ks.len()
+    ensures run::<F>(v, decls_from(ks, k)) == (
+        if ks[k] is Decl { if F::stops(v, ks[k]) { (F::step(v, ks[k]), true) } else { run::<F>(F::step(v, ks[k]), decls_from(ks, k + 1)) } }
+        else { run::<F>(v, decls_from(ks, k + 1)) })
+{
+    if ks[k] is Decl {
+        lemma_run_concat::<F>(v, seq![ks[k]], decls_from(ks, k + 1));
+        lemma_run_one::<F>(v, ks[k]);
+    }
+}
+pub proof fn lemma_walk_step<F: DeclVisitor>(v: F::S, ss: Seq<LuaScope>, ks: Seq<ScopeOrDeclId>, i: int)
+    requires 0 <= i < ks.len()
+    ensures
+        run::<F>(v, m_walk(ss, ks, i)) == (if run::<F>(v, m_child(ss, ks[i])).1 { run::<F>(v, m_child(ss, ks[i])) }
+                                      else { run::<F>(run::<F>(v, m_child(ss, ks[i])).0, m_walk(ss, ks, i - 1)) }),
+        ks[i] is Decl ==> run::<F>(v, m_child(ss, ks[i])) == (F::step(v, ks[i]), F::stops(v, ks[i])),
+        (ks[i] matches ScopeOrDeclId::Scope(sid) && sid.id >= ss.len()) ==> run::<F>(v, m_child(ss, ks[i])) == (v, false),
+{
+    lemma_run_concat::<F>(v, m_child(ss, ks[i]), m_walk(ss, ks, i - 1));
+    if ks[i] is Decl { lemma_run_one::<F>(v, ks[i]); }
+}
+/// the three segments of visit_visible_decls: [repeat body] + own children + enclosing scopes
+pub proof fn lemma_visit_segments<F: DeclVisitor>(v: F::S, a: Seq<ScopeOrDeclId>, b: Seq<ScopeOrDeclId>, c: Seq<ScopeOrDeclId>)
+    ensures
+        run::<F>(v, a + b) == (if run::<F>(v, a).1 { run::<F>(v, a) } else { run::<F>(run::<F>(v, a).0, b) }),
+        run::<F>(v, a + b + c) == (if run::<F>(v, a + b).1 { run::<F>(v, a + b) } else { run::<F>(run::<F>(v, a + b).0, c) }),
+        run::<F>(v, b + c) == (if run::<F>(v, b).1 { run::<F>(v, b) } else { run::<F>(run::<F>(v, b).0, c) }),
+        Seq::<ScopeOrDeclId>::empty() + b + c == b + c,
+        run::<F>(v, Seq::<ScopeOrDeclId>::empty()) == (v, false),
+{
+    lemma_run_concat::<F>(v, a, b);
+    lemma_run_concat::<F>(v, a + b, c);
+    lemma_run_concat::<F>(v, b, c);
+    assert(Seq::<ScopeOrDeclId>::empty() + b =~= b);
+}
+/// one unfolding of the model of visit_visible_decls (the definitions, with the terms the solver needs spelled out)
+pub proof fn lemma_visit_unfold(ss: Seq<LuaScope>, i: int, p: int, entry: bool)
+    requires 0 <= i < ss.len()
+    ensures
+        m_up(ss, i, p) == (if par_ok(ss, i) { m_visit(ss, par(ss, i), p, false) } else { Seq::<ScopeOrDeclId>::empty() }),
+        m_up(ss, i, st(ss, i)) == (if par_ok(ss, i) { m_visit(ss, par(ss, i), st(ss, i), false) } else { Seq::<ScopeOrDeclId>::empty() }),
+        kd(ss, i) == LuaScopeKind::LocalOrAssignStat ==> m_visit(ss, i, p, entry) == m_up(ss, i, st(ss, i)),
+        entry && kd(ss, i) == LuaScopeKind::Repeat ==> m_visit(ss, i, p, entry)
+            == (if first_scope(ss, i) >= 0 { m_visit(ss, first_scope(ss, i), p, true) } else { m_up(ss, i, p) }),
+        entry && kd(ss, i) == LuaScopeKind::ForRange ==> m_visit(ss, i, p, entry) == m_up(ss, i, p),
+        !entry && kd(ss, i) == LuaScopeKind::Repeat ==> m_visit(ss, i, p, entry)
+            == (if first_scope(ss, i) >= 0 { m_search(ss, first_scope(ss, i), p) } else { Seq::<ScopeOrDeclId>::empty() }) + m_search(ss, i, p) + m_up(ss, i, p),
+        (kd(ss, i) != LuaScopeKind::LocalOrAssignStat && kd(ss, i) != LuaScopeKind::Repeat && (!entry || kd(ss, i) != LuaScopeKind::ForRange))
+            ==> m_visit(ss, i, p, entry) == m_search(ss, i, p) + m_up(ss, i, p),
+{}
+/// the rposition loop found nothing
+pub proof fn lemma_cut_none(ss: Seq<LuaScope>, ks: Seq<ScopeOrDeclId>, p: int, k: int)
+    requires 0 <= k <= ks.len(), forall|j: int| 0 <= j < k ==> !before(ss, ks[j], p)
+    ensures m_cut(ss, ks, p, k) == -1
+    decreases k
+{
+    if k > 0 { lemma_cut_none(ss, ks, p, k - 1); }
+}
+/// the rposition loop found c
+pub proof fn lemma_cut_some(ss: Seq<LuaScope>, ks: Seq<ScopeOrDeclId>, p: int, k: int, c: int)
+    requires 0 <= c < k <= ks.len(), before(ss, ks[c], p), forall|j: int| c < j < k ==> !before(ss, ks[j], p)
+    ensures m_cut(ss, ks, p, k) == c
+    decreases k
+{
+    if k - 1 > c { lemma_cut_some(ss, ks, p, k - 1, c); }
+}
+
+pub open spec fn rng(ss: Seq<LuaScope>, i: int, p: int) -> bool { st(ss, i) <= p < en(ss, i) }
+/// the position is inside scope i (`TextRange::contains`); the root scope is the scope of every position
+pub open spec fn inside(ss: Seq<LuaScope>, i: int, p: int) -> bool { i == 0 || rng(ss, i, p) }
+/// what find_scope returns: a scope around p none of whose child scopes is around p
+pub open spec fn is_leaf(ss: Seq<LuaScope>, l: int, p: int) -> bool {
+    &&& 0 <= l < ss.len()
+    &&& inside(ss, l, p)
+    &&& forall|k: int| 0 <= k < kids(ss, l).len() ==> (#[trigger] kids(ss, l)[k] matches ScopeOrDeclId::Scope(sid) ==> !rng(ss, sid.id as int, p))
+}
+
+// ===== tree_wf: what the builder (compilation/analyzer/decl/{mod,stats,exprs}.rs, OUTSIDE this unit) guarantees about the tree =========
+// Derived from walk_node_enter / walk_node_leave / DeclAnalyzer::{create_scope, add_decl}: one scope per Chunk, Block, ClosureExpr, ForStat
+// (kind Normal), ForRangeStat (ForRange), RepeatStat (Repeat), LocalStat / AssignStat (LocalOrAssignStat), FuncStat / LocalFuncStat
+// (FuncStat / MethodStat); scopes and declarations are appended to the innermost open scope in pre-order (= source order); scope ranges are
+// the node ranges of a rowan tree (nested, siblings disjoint); a declaration's position is the start of its name token.
+pub open spec fn pos_of(d: LuaDeclId) -> int { d.position.raw as int }
+/// index of the scope a `Scope(..)` child names
+pub open spec fn sidx(c: ScopeOrDeclId) -> int { (c->Scope_0).id as int }
+pub open spec fn cpos(ss: Seq<LuaScope>, c: ScopeOrDeclId) -> int {
+    match c { ScopeOrDeclId::Decl(d) => pos_of(d), ScopeOrDeclId::Scope(s) => st(ss, s.id as int) }
+}
+/// a declaration (name token) occupies at least one character
+pub open spec fn cend(ss: Seq<LuaScope>, c: ScopeOrDeclId) -> int {
+    match c { ScopeOrDeclId::Decl(d) => pos_of(d) + 1, ScopeOrDeclId::Scope(s) => en(ss, s.id as int) }
+}
+/// every scope but the root is listed among the children of its parent
+pub open spec fn wf_listed(ss: Seq<LuaScope>) -> bool {
+    forall|i: int| 0 < i < ss.len() ==> 0 <= #[trigger] par(ss, i) && exists|k: int| is_scope_child(ss, par(ss, i), k, i)
+}
+/// ranges are ranges; a child scope's range lies inside its parent's; two child scopes of one scope do not overlap (rowan nodes)
+pub open spec fn wf_ranges(ss: Seq<LuaScope>) -> bool {
+    &&& forall|i: int| 0 <= i < ss.len() ==> #[trigger] st(ss, i) <= en(ss, i)
+    &&& forall|i: int, k: int| 0 <= i < ss.len() && 0 <= k < kids(ss, i).len() ==>
+            (#[trigger] kids(ss, i)[k] matches ScopeOrDeclId::Scope(sid) ==> st(ss, i) <= st(ss, sid.id as int) && en(ss, sid.id as int) <= en(ss, i))
+    &&& forall|i: int, k1: int, k2: int| 0 <= i < ss.len() && 0 <= k1 < kids(ss, i).len() && 0 <= k2 < kids(ss, i).len() && k1 != k2 ==>
+            ((#[trigger] kids(ss, i)[k1] is Scope && #[trigger] kids(ss, i)[k2] is Scope)
+                ==> en(ss, sidx(kids(ss, i)[k1])) <= st(ss, sidx(kids(ss, i)[k2])) || en(ss, sidx(kids(ss, i)[k2])) <= st(ss, sidx(kids(ss, i)[k1])))
+}
+/// children are in source order: each one ends before the next one starts. NOT required of a LocalOrAssignStat scope (never searched; in
+/// `f(function() end).x, y = 1, 2` the declaration of `y` is added before the closure scope that precedes it in the text)
+pub open spec fn wf_order(ss: Seq<LuaScope>) -> bool {
+    forall|i: int, a: int, b: int| 0 <= i < ss.len() && kd(ss, i) != LuaScopeKind::LocalOrAssignStat && 0 <= a < b < kids(ss, i).len() ==>
+        cend(ss, #[trigger] kids(ss, i)[a]) <= cpos(ss, #[trigger] kids(ss, i)[b])
+}
+/// a Repeat scope holds no declarations; its first child is the body block (kind Normal), which holds no declarations directly
+pub open spec fn wf_repeat(ss: Seq<LuaScope>) -> bool {
+    forall|i: int| 0 <= i < ss.len() && #[trigger] kd(ss, i) == LuaScopeKind::Repeat ==> {
+        &&& first_scope(ss, i) >= 0
+        &&& kd(ss, first_scope(ss, i)) == LuaScopeKind::Normal
+        &&& forall|k: int| 0 <= k < kids(ss, i).len() ==> #[trigger] kids(ss, i)[k] is Scope
+        &&& forall|k: int| 0 <= k < kids(ss, first_scope(ss, i)).len() ==> #[trigger] kids(ss, first_scope(ss, i))[k] is Scope
+    }
+}
+/// statement scopes (`local`/assignment, function statements): not empty, a direct child of a block (kind Normal), their declarations are
+/// name tokens inside the statement
+pub open spec fn wf_stmt(ss: Seq<LuaScope>) -> bool {
+    forall|i: int| 0 <= i < ss.len() && stmt_kind(#[trigger] kd(ss, i)) ==> {
+        &&& st(ss, i) < en(ss, i)
+        &&& i > 0 && 0 <= par(ss, i) && kd(ss, par(ss, i)) == LuaScopeKind::Normal
+        &&& forall|k: int| 0 <= k < kids(ss, i).len() ==> (#[trigger] kids(ss, i)[k] matches ScopeOrDeclId::Decl(d) ==> st(ss, i) <= pos_of(d) < en(ss, i))
+    }
+}
+/// a function statement declares at most one name and starts (keyword `function` / `local`) before its closure
+pub open spec fn wf_func(ss: Seq<LuaScope>) -> bool {
+    forall|i: int| 0 <= i < ss.len() && func_kind(#[trigger] kd(ss, i)) ==> {
+        &&& forall|k: int| 0 <= k < kids(ss, i).len() ==> (#[trigger] kids(ss, i)[k] matches ScopeOrDeclId::Scope(sid) ==> st(ss, i) < st(ss, sid.id as int))
+        &&& forall|a: int, b: int| 0 <= a < kids(ss, i).len() && 0 <= b < kids(ss, i).len()
+                && #[trigger] kids(ss, i)[a] is Decl && #[trigger] kids(ss, i)[b] is Decl ==> a == b
+    }
+}
+/// the names of one `local` / assignment statement are listed in source order
+pub open spec fn wf_local(ss: Seq<LuaScope>) -> bool {
+    forall|i: int, a: int, b: int| 0 <= i < ss.len() && kd(ss, i) == LuaScopeKind::LocalOrAssignStat && 0 <= a < b < kids(ss, i).len() ==>
+        ((#[trigger] kids(ss, i)[a] is Decl && #[trigger] kids(ss, i)[b] is Decl) ==> cpos(ss, kids(ss, i)[a]) < cpos(ss, kids(ss, i)[b]))
+}
+/// where the text of child b of scope i may begin: after the previous child (ordered scopes), inside the parent
+pub open spec fn beta(ss: Seq<LuaScope>, i: int, b: int) -> int {
+    if kd(ss, i) == LuaScopeKind::LocalOrAssignStat || b <= 0 { st(ss, i) }
+    else if st(ss, i) >= cend(ss, kids(ss, i)[b - 1]) { st(ss, i) } else { cend(ss, kids(ss, i)[b - 1]) }
+}
+/// the declarations held by a scope lie after the scope's previous sibling and inside its parent. (They need not lie inside the scope's own
+/// range: the implicit `self` of `function a:b() end` is positioned at the colon, in front of the closure scope that holds it.)
+pub open spec fn wf_declpos(ss: Seq<LuaScope>) -> bool {
+    forall|i: int, b: int, k: int| #![trigger kids(ss, sidx(kids(ss, i)[b]))[k]]
+        0 <= i < ss.len() && 0 <= b < kids(ss, i).len() && kids(ss, i)[b] is Scope
+            && 0 <= k < kids(ss, sidx(kids(ss, i)[b])).len() && kids(ss, sidx(kids(ss, i)[b]))[k] is Decl
+        ==> beta(ss, i, b) <= cpos(ss, kids(ss, sidx(kids(ss, i)[b]))[k])
+}
+#[verifier::opaque]
+pub open spec fn tree_wf(ss: Seq<LuaScope>) -> bool {
+    &&& ss.len() > 0
+    &&& links_wf(ss)
+    &&& wf_listed(ss)
+    &&& wf_ranges(ss)
+    &&& wf_order(ss)
+    &&& wf_repeat(ss)
+    &&& wf_stmt(ss)
+    &&& wf_func(ss)
+    &&& wf_local(ss)
+    &&& wf_declpos(ss)
+}
+
+// ===== the specification of C13: which declaration is visible where ======================================================================
+/// p is inside the BODY of scope s: its last child, a scope (function body / loop body block)
+pub open spec fn in_body(ss: Seq<LuaScope>, s: int, p: int) -> bool {
+    kids(ss, s).len() > 0 && (kids(ss, s).last() matches ScopeOrDeclId::Scope(sid) && rng(ss, sid.id as int, p))
+}
+pub open spec fn in_some_child(ss: Seq<LuaScope>, s: int, p: int) -> bool {
+    exists|k: int| 0 <= k < kids(ss, s).len() && (#[trigger] kids(ss, s)[k] matches ScopeOrDeclId::Scope(sid) && rng(ss, sid.id as int, p))
+}
+/// p is inside block b, or b is the body of a repeat statement and p is inside that statement (v: the `until` condition sees the body's names)
+pub open spec fn ext_inside(ss: Seq<LuaScope>, b: int, p: int) -> bool {
+    inside(ss, b, p) || (b > 0 && 0 <= par(ss, b) && kd(ss, par(ss, b)) == LuaScopeKind::Repeat && first_scope(ss, par(ss, b)) == b && inside(ss, par(ss, b), p))
+}
+/// the declaration d held by scope s is in scope at position p.
+/// lua = true : Lua's rule (the property). lua = false: what the real code implements; the two differ only for scopes of kind Normal / ForRange
+/// that hold declarations (numeric-for variable, generic-for variables, parameters, implicit self) at positions outside the scope's body.
+pub open spec fn region(ss: Seq<LuaScope>, s: int, d: LuaDeclId, p: int, lua: bool) -> bool {
+    match kd(ss, s) {
+        // (iv) loop variables, parameters, implicit self: visible in the body only, not in the header expressions
+        LuaScopeKind::Normal => (if lua { in_body(ss, s, p) } else { inside(ss, s, p) }) && pos_of(d) < p,
+        LuaScopeKind::ForRange => (if lua { in_body(ss, s, p) } else { in_some_child(ss, s, p) }) && pos_of(d) < p,
+        LuaScopeKind::Repeat => false,
+        // (ii) `local x = x`: the names of a local / assignment statement are visible after the statement (to the end of the enclosing block,
+        // (v) and in the `until` condition if that block is a repeat body), not inside the statement itself
+        LuaScopeKind::LocalOrAssignStat => s > 0 && 0 <= par(ss, s) && ext_inside(ss, par(ss, s), p) && en(ss, s) <= p,
+        // (iii) a function statement's name is visible from the statement on: inside its own body and after it
+        LuaScopeKind::FuncStat | LuaScopeKind::MethodStat => s > 0 && 0 <= par(ss, s) && ext_inside(ss, par(ss, s), p) && st(ss, s) < p,
+    }
+}
+pub open spec fn visible(ss: Seq<LuaScope>, d: LuaDeclId, p: int, lua: bool) -> bool {
+    exists|s: int, k: int| 0 <= s < ss.len() && is_decl_child(ss, s, k, d) && region(ss, s, d, p, lua)
+}
+/// positions where the code's notion and Lua's differ: inside a declaration-holding Normal / ForRange scope but outside its body
+/// (header expressions of a numeric / generic for, closures inside them; parameter lists, where no name can be used)
+pub open spec fn in_header(ss: Seq<LuaScope>, p: int) -> bool {
+    exists|s: int, k: int| 0 <= s < ss.len() && 0 <= k < kids(ss, s).len() && #[trigger] kids(ss, s)[k] is Decl
+        && (kd(ss, s) == LuaScopeKind::Normal || kd(ss, s) == LuaScopeKind::ForRange) && inside(ss, s, p) && !in_body(ss, s, p)
+}
